@@ -3,6 +3,7 @@ C15 — property theorems (TDL text <-> TDL objects round trip).  Helper lemmas 
 The model (Model.lean) is the token-level composite `_lex ∘ format` (`toks*`), the parser
 (`parse*`), the constructors, docstring formatting/escaping/scanning and feature paths.
 -/
+import Verif.Generated.TablesC15
 import Verif.C15.Lemmas
 import Verif.C15.Canon
 import Verif.C15.Parse
@@ -12,6 +13,7 @@ import Verif.C15.Files
 import Verif.C15.Second
 
 namespace Verif.C15
+open Verif.Tables
 set_option linter.unusedSimpArgs false
 
 /-! ## Documentation strings, character level -/
@@ -269,5 +271,109 @@ example :
     let t : Term := .avm none (.cons ['A'] (.term (.avm (some ['d']) (.cons ['B'] x .nil))) .nil)
     Tok.doc ['d'] ∈ toksTerm t := by
   simp [toksTerm, toksFeats, toksFeat, toksFeatsC, toksVal, toksTerms, toksAmp, docTok, pathToks]
+
+
+/-! ## Pins: the source constants that the hand-written model mirrors -/
+
+/-- Read from the live code on every run (`harness/c15.py: tables()` → `Verif/Generated/TablesC15.lean`)
+and compared here with a literal copy.  A change to any of them makes this theorem stop checking; the
+check then reports a broken proof obligation and searches for a failing input.
+
+* `c15LexPattern` (the 30-alternative `_tdl_lex_re`, `re.VERBOSE` layout and comments removed),
+  `c15LexGroups`, `c15LexFlags`, `c15IdentifierPattern`: the group numbering is `Tok.gid`/`Tok.ofGid`
+  (1 docstring … 30 unexpected); gid 1/2 openers + `_bounded` are `scanB q3` / `scanB ['|','#']`; gid 20 is
+  the token `morphText` builds; gid 22 is `Tok.affixpat` (`splitAffix`); the harness alphabets for strings,
+  regexes and identifiers are the texts of gids 4, 6, 24.
+* `c15Consts "tdl._parse_*"`: the gid numbers each parser function tests — `parseTerm` (1,4,5,6,13,14,15,19,24
+  and the break gids 17/18), `parseTerms` (11), `parseFeats/parseFeatLoop/parsePath` (16,24,10,12),
+  `parseList*` (9,10,12), `parseDef/finishDef/takeAffixPats` (7,8,21,22,1,10), `parseItems` (2,3,20,24,25,26,29
+  and the event names), environment keywords (27, `:instance`, `:status`, `:type`) — and
+  `_is_comment`/`_shift` (2,3; look-ahead 1).
+* `c15Consts "tdl._parse_letterset"`: the three regexes and the unescape substitution mirrored by
+  `morphBody`/`morphChars`/`parseMorph`; `"tdl._format_morphset"`: the escape set (`escMorph`) and the text
+  shape (`morphText`).
+* `c15Consts "tdl._format_*"`: delimiters and separators that `toks*`/`toksItem` turn into tokens (string
+  quotes, `^ $`, `#`, `[ ]`, `< >`, `, ...`, ` . `, `<! !>`, ` & `, the definition / affix / final-dot shapes,
+  `:begin/:end/:status`, `:include`, `;`, `#| |#`) and the indentation increments (2, 3, 4) that only the
+  oracle sees.
+* `c15Consts "tdl._format_docstring" / "tdl._escape_docstring" / "tdl._bounded" / "tdl._lex"`: `fmtDoc` (newline,
+  indentation, lines, newline, indentation between triple quotes), `escGo` (the `cnt` values 0, 1, -1, 3 and the
+  quote/backslash set), `scanB` (skip 2 after a backslash, else 1).
+* `c15ListNames`, `c15Defaults`, `c15Operators`: `listType`/`emptyListType`, the `FIRST/REST/LIST/LAST` paths of
+  `expand*`, the default `end` of `ConsList` (open list), `:=`/`:+` (`Tok.defop`/`Tok.addop`).
+* `c15Consts "tfs.FeatureStructure.*"`, `"tdl.ConsList.append"`, `"tdl.DiffList.__init__"`,
+  `"tdl._collect_list_items"`, `"tdl.AVM.features"`: the `.` path separator of `setPath/getPath/expand*`, the
+  "exactly one feature" test of `_is_notable` (`toksFeat`), `LIST.` of diff lists.
+* `c15Layout` = `_base_indent`, `_max_inline_list_items`, `_line_width`: not in the model (it is layout-free);
+  the generator's list sizes (0–8) and long identifiers are chosen against them so that both layouts occur. -/
+theorem c15_pins :
+    c15LexPattern =
+      "(\"\"\")|(\\#\\|)|;([^\\n]*)|\"([^\"\\\\]*(?:\\\\.[^\"\\\\]*)*)\"|'([^\\s!\"#$%&'(),.\\/:;<=>[\\]^|]+)|\\^([^$\\\\]*(?:\\\\.|[^$\\\\]*)*)\\$|(:[=<])|(:\\+)|(\\.\\.\\.)|(\\.)|(&)|(,)|(\\[)|(<!)|(<)|(\\])|(!>)|(>)|\\#([^\\s!\"#$%&'(),.\\/:;<=>[\\]^|]+)|%\\s*\\((.*)\\)\\s*$|%(prefix|suffix)|\\(([^ ]+\\s+(?:[^ )\\\\]|\\\\.)+)\\)|(\\/)|([^\\s!\"#$%&'(),.\\/:;<=>[\\]^|]+)|(:begin)|(:end)|(:type|:instance)|(:status)|(:include)|([^\\s])"
+    ∧ c15LexFlags =
+      96
+    ∧ c15LexGroups =
+      30
+    ∧ c15IdentifierPattern =
+      "[^\\s!\"#$%&'(),.\\/:;<=>[\\]^|]+"
+    ∧ c15Layout =
+      [2, 3, 79]
+    ∧ c15ListNames =
+      ["*list*", "*null*", "FIRST", "REST", "LIST", "LAST"]
+    ∧ c15Operators =
+      [":=", ":+", ":="]
+    ∧ c15Defaults =
+      [
+      ("tdl.ConsList.__init__", "(None, '*list*', None)"),
+      ("tdl.DiffList.__init__", "(None, None)"),
+      ("tdl.format", "(0,)"),
+      ("tdl._peek", "(0,)"),
+      ("tdl.AVM.features", "(False,)"),
+      ("tfs.FeatureStructure.features", "(False,)"),
+      ("tdl.TypeAddendum.__init__", "(None, None)")]
+    ∧ c15Consts =
+      [
+      ("tdl._is_comment", ["2", "0", "3"]),
+      ("tdl._shift", ["1", "0", "2"]),
+      ("tdl._lex", ["1", "0", "2", "\"\"\"", "#|", "|#", "30"]),
+      ("tdl._bounded", ["\\", "2", "1", "\"\"\"", "0", ""]),
+      ("tdl._parse_tdl", ["1", "2", "BlockComment", "3", "LineComment", "20", "24", "25", "BeginEnvironment", "26", "EndEnvironment", "29", "FileInclude"]),
+      ("tdl._parse_tdl_definition", ["7", "21", ":<", "2", "0", "8", "1", "10"]),
+      ("tdl._parse_letterset", ["\\s+((?:[^) \\\\]|\\\\.)+)\\)\\s*$", "\\s*letter-set\\s*\\((!.)", "\\\\(.)", "\\1", "2", "1", "\\s*wild-card\\s*\\((\\?.)"]),
+      ("tdl._parse_tdl_affixes", ["21", "22", "1"]),
+      ("tdl._parse_tdl_conjunction", ["11", "1", "0"]),
+      ("tdl._parse_tdl_term", ["1", "4", "5", "2", "6", "13", "14", "17", "15", "18", "19", "24"]),
+      ("tdl._parse_tdl_feature_structure", ["16", "24", "10", ".", "12"]),
+      ("tdl._parse_tdl_list", ["0", "9", "10", "12"]),
+      ("tdl._parse_tdl_begin_environment", ["27", ":instance", "1", ":status", "10"]),
+      ("tdl._parse_tdl_end_environment", [":type", ":instance", "10"]),
+      ("tdl._parse_tdl_include", ["4", "10"]),
+      ("tdl._format_term", ["{}\n{}{}", " "]),
+      ("tdl._format_string", ["\""]),
+      ("tdl._format_regex", ["^", "$"]),
+      ("tdl._format_coref", ["#"]),
+      ("tdl._format_avm", ["3", "\n", " ", "[ ]", "[ {} ]", ",\n", "2"]),
+      ("tdl._format_conslist", ["2", "", ", ...", "...", " . ", "-1", "< >", "2", "< {} >", ", ", " ", "< ", "0", "1", ",\n", " >"]),
+      ("tdl._format_difflist", ["3", "<! !>", "2", "4", "<! {} !>", ", ", ",\n", " "]),
+      ("tdl._format_conjunction", ["0", "", "3", " &\n", " ", " & "]),
+      ("tdl._format_typedef", [" ", "affix_type", "(", " ", ")", "2", "{}{} {}\n%{} {}\n  {}.", "4", "{}{} {} {}."]),
+      ("tdl._format_typedef_body", ["1", "-1", "0", "2", "{} &\n{}{}", " ", "\n  ", ""]),
+      ("tdl._format_docstring", ["", "\n", "0", "1", "-1", " ", "\n{0}{1}\n{0}", "\"\"\""]),
+      ("tdl._escape_docstring", ["0", "1", "-1", "\"\\", "\"", "3", "\\", ""]),
+      ("tdl._format_morphset", ["letter-set", "wild-card", "([) \\\\])", "\\\\\\1", "{}%({} ({} {}))", " "]),
+      ("tdl._format_environment", ["", ":type", ":instance", " :status ", "\n", "2", "{0}:begin {1}{2}.\n{3}{0}:end {1}.", " "]),
+      ("tdl._format_include", ["{}:include \"{}\".", " "]),
+      ("tdl._format_linecomment", ["{};{}", " "]),
+      ("tdl._format_blockcomment", ["{}#|{}|#", " "]),
+      ("tdl._collect_list_items", ["."]),
+      ("tdl.ConsList.append", ["."]),
+      ("tdl.ConsList.terminate", []),
+      ("tdl.DiffList.__init__", ["LIST.", "LIST"]),
+      ("tdl.AVM.features", ["."]),
+      ("tdl.Coreference.__str__", [""]),
+      ("tfs.FeatureStructure.__setitem__", [".", "1", "0", "__setitem__"]),
+      ("tfs.FeatureStructure.__getitem__", ["."]),
+      ("tfs.FeatureStructure._is_notable", ["1"]),
+      ("tfs.FeatureStructure.features", ["{}.{}"])] := by
+  refine ⟨?_, ?_, ?_, ?_, ?_, ?_, ?_, ?_, ?_⟩ <;> rfl
 
 end Verif.C15
